@@ -125,6 +125,9 @@ fn rd_uint(b: &[u8], at: usize, n: usize) -> u64 {
 
 const COMMON_INV_LEN: usize = 63;
 
+/// widest address delta (in bytes) the independent decoder has come across
+static MAX_TSZ: std::sync::atomic::AtomicUsize = std::sync::atomic::AtomicUsize::new(0);
+
 struct Trans {
     inp: u8,
     out: u64,
@@ -162,6 +165,7 @@ fn decode_node(b: &[u8], addr: usize, common_inv: &[u8]) -> Result<(bool, u64, V
             if tsz == 0 || tsz > 8 || osz > 8 {
                 return Err(format!("node {}: bad pack sizes {:#x}", addr, sizes));
             }
+            MAX_TSZ.fetch_max(tsz, std::sync::atomic::Ordering::Relaxed);
             at -= tsz;
             let delta = rd_uint(b, at, tsz) as usize;
             let out = if osz > 0 {
@@ -191,6 +195,7 @@ fn decode_node(b: &[u8], addr: usize, common_inv: &[u8]) -> Result<(bool, u64, V
             if tsz == 0 || tsz > 8 || osz > 8 {
                 return Err(format!("node {}: bad pack sizes {:#x}", addr, sizes));
             }
+            MAX_TSZ.fetch_max(tsz, std::sync::atomic::Ordering::Relaxed);
             if n > 32 {
                 at -= 256; // the index
             }
@@ -395,6 +400,9 @@ fn case_bigfile(o: &mut Out, map: bool, mib: usize, old: bool) {
         i += 1;
     });
     o.check(res.is_ok() && bad == 0, || format!("C09 reading a {}-byte built file by the format description: {:?}, {} of {} entries differ", bytes.len(), res, bad, i));
+    let widest = MAX_TSZ.load(std::sync::atomic::Ordering::Relaxed);
+    o.note(format!("bigfile: widest address delta {} bytes", widest));
+    o.check(widest >= 4 || res.is_err(), || format!("C09 the {}-byte file has no 4-byte address delta (generator problem: make it larger)", bytes.len()));
     // C10: the same content as written by earlier releases (reference encoder), read by the crate
     if !map || !old {
         return;
